@@ -65,7 +65,7 @@ func (f *Fed) NewGateway(cfg GatewayConfig) (*pebbles.Gateway, error) {
 	opts = append(opts, cfg.Options...)
 	urls := f.URLs()
 	if cfg.URLOrder != nil {
-		p := make([]string, len(urls))
+		p := make([]string, len(cfg.URLOrder)) // may list a service twice
 		for i, j := range cfg.URLOrder {
 			p[i] = urls[j]
 		}
